@@ -6,8 +6,13 @@ docs/SPECIFICATION.md / docs/STDLIB.md by hand (not copied from an engine)."""
 F = {}
 
 
-def add(name, decls, body, expected):
+AFTER = {}          # declarations printed AFTER main (forward references)
+
+
+def add(name, decls, body, expected, after=None):
     F[name] = (decls, body, expected)
+    if after:
+        AFTER[name] = after
 
 
 add('int_arith', '', '(println (+ (* 3 4) (- 10 (/ 9 2))))\n(println (% 17 5))\n(println (% -17 5))\n(println (/ -17 5))', '18\n2\n-2\n-3\n')
@@ -97,6 +102,13 @@ add('for_in_array', '', 'let arr: array<int> = [4, 5, 6]\nfor e in arr {\n (prin
 add('import_fnvalue', '', '(println "skip")', 'skip\n')
 
 
+# forward references: the callee is defined after its caller (and after main)
+add('forward_call', '', '(println (later 4))\n(println (later2 "x"))', '41\nin-later2\nxx\n',
+    after='fn later(x: int) -> int {\n    return (+ (* x 10) 1)\n}\nshadow later { assert true }\nfn later2(s: string) -> string {\n    (println "in-later2")\n    return (+ s s)\n}\nshadow later2 { assert true }')
+add('forward_fnvalue_print', 'fn ap2(f: fn(int) -> int, v: int) -> int {\n    let r: int = (f v)\n    (println "after-call")\n    return (+ r 1)\n}\nshadow ap2 { assert true }',
+    '(println (ap2 noisy 5))\nlet g: fn(int) -> int = noisy\n(println (g 7))\n(println "end")', 'noisy 5\nnoisy-again\nafter-call\n11\nnoisy 7\nnoisy-again\n14\nend\n',
+    after='fn noisy(x: int) -> int {\n    (println (+ "noisy " (int_to_string x)))\n    (println "noisy-again")\n    return (* x 2)\n}\nshadow noisy { assert true }')
+
 EXTRA_FILES = {
     'import_call_in_shadow': {"census_m1.nano": 'pub fn imp_seven() -> int {\n    (println "in-imp")\n    return 7\n}\nshadow imp_seven { assert (== (imp_seven) 7) }\n'},
 }
@@ -115,4 +127,6 @@ def program(name):
     body = '\n'.join('    ' + l for l in body.split('\n'))
     text = ('%s\nfn t() -> int {\n%s\n    return 0\n}\nshadow t {\n    (println "<<S")\n    (t)\n    (println ">>E")\n}\n'
             'fn main() -> int {\n    (println "<<S")\n    (t)\n    (println ">>E")\n    return 0\n}\nshadow main { assert true }\n' % (decls, body))
+    if name in AFTER:
+        text += AFTER[name] + "\n"
     return text, expected
